@@ -28,22 +28,27 @@ claim("C18", "Coq theorems on the raw-buffer model of util.rs (all palette inser
       "extrude_border, PaletteMapper::lookup and to_indexed_image of the real crate (release and dev) with the formula and with the model.",
       "Modelled, not verified: image::RgbaImage as a raw row-major buffer; IntMap as a finite map with arbitrary iteration order.",
       "DESIGN.md section 5, C18")
-claim("C17", "Coq theorems about the blend wrapper for all 19 modes (finite sweeps only over byte-ranged helper domains) + law evaluation on rendered pixels",
+claim("C17", "Coq theorems about the blend wrapper for all 19 modes, re-proved on every run for the Gallina text a translator (tools/rs2coq.py) regenerates from src/blend.rs with every i32/u8 operation overflow-checked + law evaluation on rendered pixels",
       "Theorems C17_alpha, C17_src_transparent, C17_zero_opacity, C17_over_transparent, C17_normal_opaque hold for every mode id, all byte pixels and "
       "opacities with no float reasoning (proved once for the generic wrapper over any colour function preserving source alpha); C17_range_int / "
       "C17_range_soft: no overflow check, debug assertion or division by zero and every channel in 0..255 for Normal, the 14 integer modes and soft light "
       "(65536-point sweep on primitive floats); for the four HSL modes C17_range_hsl_only_failure shows the float-to-byte range check is the only possible "
-      "failure and C17_range_hsl_partial assumes it passes (goal_C17_range_hsl keeps the unconditional statement visible). The check re-proves them and "
-      "evaluates the laws on ~1.7 million rendered pixels per quick run in builds with overflow checks and debug assertions.",
-      "Partial: the HSL range statement carries the computable guard hsl_ok. Print Assumptions lists only primitive float/int63 operations. Modelled: Model/Blend.v against src/blend.rs (tied by the pixel correspondence run).",
+      "failure and C17_range_hsl_partial assumes it passes (goal_C17_range_hsl keeps the unconditional statement visible). Tie to the code, both ways: (a) every run "
+      "translates the current src/blend.rs (and the two mode-dispatch tables of file.rs / layer.rs) to Gallina in the option monad - arithmetic checked in its Rust "
+      "type, debug_assert!, division, run-time indices - and the kernel re-checks GEN_tie (generated blend = model blend for all byte inputs and mode ids 0..18, None "
+      "outside) and C17_*_gen (all the laws and the range / no-overflow statements for the generated functions; channel functions by complete 256 x 256 sweeps, the "
+      "rest symbolically); (b) the laws are evaluated on ~1.7 million rendered pixels per quick run in builds with overflow checks and debug assertions.",
+      "Partial: the HSL range statement carries the computable guard hsl_ok. Print Assumptions lists only primitive float/int63 operations. Trusted additionally: the translator tools/rs2coq.py and the operation semantics coq/Gen/RustSem.v (checked +,-,*,/ per integer type, wrapping shifts and casts, saturating float casts, NaN-ignoring min/max). A source change outside the translated subset, or one the static proof script no longer follows, is reported as a broken obligation (with a failing pixel when the run finds one, no-failing-input-found otherwise).",
       "DESIGN.md section 5, C17")
-claim("C03", "Coq refinement proof Model/Blend.v = Spec/AseRef.v (transcribed Aseprite C++) + pixel-exact comparison through Frame::image",
+claim("C03", "Coq refinement proof (blend code regenerated from src/blend.rs by a translator on every run) = Model/Blend.v = Spec/AseRef.v (transcribed Aseprite C++) + pixel-exact comparison through Frame::image",
       "Theorems C03_int (Normal and the 14 integer modes: the model's blend equals the transcribed Aseprite function on packed colours for all byte pixels "
       "and opacities), C03_soft (soft light, via a 65536-point sweep of the channel function on primitive floats), C03_hsl_preclip (unconditional: both "
       "sides pass the same float triple to clip_color, including the r==g<b aliasing quirk of set_sat) and C03_hsl_partial (under the computable hsl_guard; "
-      "goal_C03_hsl keeps the full statement); the check re-proves them and renders two-layer sprites enumerating channel squares, alpha squares, tie/ordering "
+      "goal_C03_hsl keeps the full statement); C03_int_gen / C03_soft_gen / C03_hsl_partial_gen state the same for the functions that tools/rs2coq.py regenerates from the "
+      "current src/blend.rs, src/file.rs (blend_mode_to_blend_fn) and src/layer.rs (parse_blend_mode) on every run, through GEN_tie (generated = model for all byte "
+      "inputs); the check re-translates, re-proves them and renders two-layer sprites enumerating channel squares, alpha squares, tie/ordering "
       "lattices and random pixels for every mode, comparing implementation = model = extracted AseRef on every pixel and recording hsl_guard on every HSL pixel.",
-      "Partial: HSL bit-exactness is proved up to hsl_guard (no float error analysis). Spec/AseRef.v is trusted as the meaning of Aseprite's blend functions (parts transcribed from memory of upstream blend_funcs.cpp, see DESIGN.md Appendix E). Print Assumptions lists only primitive float/int63 operations.",
+      "Partial: HSL bit-exactness is proved up to hsl_guard (no float error analysis). Spec/AseRef.v is trusted as the meaning of Aseprite's blend functions (parts transcribed from memory of upstream blend_funcs.cpp, see DESIGN.md Appendix E). Print Assumptions lists only primitive float/int63 operations. Trusted additionally: the translator tools/rs2coq.py and coq/Gen/RustSem.v (semantics of the Rust operations it emits).",
       "DESIGN.md section 5, C03")
 claim("C02", "Coq per-pixel refinement proof of the renderer model against a declarative composition formula + pixel correspondence run",
       "Theorems C02_compose / C02_compose_loaded (for every file the loader accepts and every frame, the rendered image has the canvas dimensions and each "
@@ -120,15 +125,19 @@ claim("C12", "Coq theorems on the reader's buffering and the inflate size checks
       "against both the property's bound and alloc_upper.",
       "Partial: the allocator, Vec/HashMap/BTreeMap growth and struct layout are modelled by alloc_upper and validated by measurement, not derived from the code; the byte-budget hypotheses of C12_bound_partial (16 B per frame, 24 B per layer, 6 B per entity) are accounting, not a theorem about the parser. A new declared-size reservation in the code is detected when an input makes the measurement exceed alloc_upper or the bound.",
       "DESIGN.md section 5, C12")
-claim("C01", "Coq decode-after-encode theorems for the header and every chunk kind (all attribute values, arbitrary junk and tails) + accessor laws + structure correspondence run",
+claim("C01", "Coq end-to-end theorem load(serialize s) over a whole-sprite serializer with every encoding choice + decode-after-encode theorems per chunk kind + accessor laws + structure correspondence run",
       "47 theorems: C01_header / C01_header_loaded (canvas, frame count, format, transparent index as encoded, for every value of the unused header fields), one "
       "round-trip theorem per chunk kind (layer, tags, slice with keys/9-slice/pivot, palette, external files, tileset header, user data, cel header and the four cel "
       "contents, colour profile, tilemap header; signed fields at their extremes; names any valid UTF-8; reserved fields arbitrary; any trailing bytes), the dispatcher "
       "lemmas C01_process_*, and the accessor laws C01_layer_by_name_lowest / C01_tag_by_name_lowest / C01_get_tag_range / C01_iteration / C01_layers_in_order, for all "
-      "values with no size bound. The end-to-end statement (serialize a whole sprite, load, observe) is NOT proved as one theorem: the chunk-level theorems compose with "
-      "the factorisation (Proofs/Factor.v) and the assembly lemmas, and the whole-file tie is the correspondence run, which compares the implementation's complete STRUCT "
-      "observation with the expectation computed from the generator's sprite and with the model on value-swept structured sprites and the corpus.",
-      "Partial: no single end-to-end round-trip theorem over a whole-sprite serializer (stated in DESIGN.md). Modelled, not verified: decoders of Model/Chunks.v against the chunk parsers in src/.",
+      "values with no size bound. End to end (Props/C01_e2e.v, 25 theorems): for every well-formed chunk program s (Spec/Serialize.v: a whole sprite with every encoding "
+      "choice - junk in unused fields, chunk tails, either chunk-count field, raw or compressed cels, ignorable chunks anywhere) C01_framing_serialize, "
+      "C01_assemble_serialize, C01_load_serialize (load (serialize s ++ tail) = fold of the chunk events, then validate) and C01_e2e_headline: under sprite_ok the load "
+      "succeeds and reports exactly the canvas, format, frame count and durations, layers / tags / slices with keys in file order with the user data the window rule "
+      "assigns, external files, palette and the cel at every (frame, layer); C01_e2e_example shows the hypotheses are satisfiable. The whole-file tie to the code is the "
+      "correspondence run, which compares the implementation's complete STRUCT observation with the expectation computed from the generator's sprite and with the model "
+      "on value-swept structured sprites and the corpus.",
+      "Partial: sprite_ok of the headline theorem excludes tileset chunks, tilemap layers and tilemap cels (they are covered chunk by chunk - C01_tileset_hdr, C01_tilemap_hdr - and by the correspondence run, not by the end-to-end statement). Modelled, not verified: decoders of Model/Chunks.v against the chunk parsers in src/.",
       "DESIGN.md section 5, C01")
 claim("C11", "Coq theorems for the three palette decoders (functional specs, finite 6-bit sweep), precedence and completeness + palette-program correspondence run",
       "20 theorems: C11_new (one entry per index of the stored range with the stored RGBA and optional name, nothing outside), C11_old / C11_old_last_wins / C11_old_single / "
